@@ -28,9 +28,12 @@ from vlib import rustlex as rl        # noqa: E402
 from vlib import extras as X          # noqa: E402
 
 CONTRACTS = os.path.join(HERE, "contracts")
-BUILD = os.path.join(HERE, "build")
-EVID = os.path.join(HERE, "evidence")
-REPLAYS = os.path.join(HERE, "replays")
+# developer aid only (tools/reseed.py): VERIF_OUT redirects every generated file (build/, evidence/, replays/) so that
+# runs against a scratch copy of the repository (VERIF_REPO) never touch the registered outputs
+_OUT = os.environ.get("VERIF_OUT", HERE)
+BUILD = os.path.join(_OUT, "build")
+EVID = os.path.join(_OUT, "evidence")
+REPLAYS = os.path.join(_OUT, "replays")
 LEDGER = os.path.join(CONTRACTS, "ledger.json")
 KNOWN = os.path.join(HERE, "known_findings.json")
 JOBS = int(os.environ.get("VERIF_JOBS", "16"))
@@ -399,7 +402,7 @@ def unit_obligations(b, prop):
                     named.append(c.full_id)
                 else:
                     assumed.append(c.full_id)
-            elif c.kind in ("ensures", "loop_invariant", "before", "after", "loopstart", "loopend", "closure_sig", "start"):
+            elif c.kind in ("ensures", "loop_invariant", "loop_ensures", "before", "after", "loopstart", "loopend", "closure_sig", "start", "tail"):
                 if p.has_body:
                     named.append(c.full_id)
                 else:
